@@ -276,7 +276,9 @@ impl<'a> HistGen<'a> {
         }
         if self.big_left > 0 && self.rng.chance(1, 3) {
             self.big_left -= 1;
-            return format!("{}/{}data.big", d, self.n_created);
+            // the size class is part of the name: s0 = 1.1 MiB, s1 = 2.5 MiB, s2 = 9 MiB (files that take
+            // visibly different times to read and hash)
+            return format!("{}/{}data.s{}.big", d, self.n_created, self.rng.below(3));
         }
         let base = if self.long_names && self.rng.chance(1, 12) { format!("{}-{}.txt", "L".repeat(200), self.n_created) } else { NAME_POOL[self.rng.below(12)].to_string() };
         // unique by construction: prefix the counter into the last component
@@ -468,13 +470,14 @@ pub fn exec_repo_op(w: &mut World, op: &GitOp, model_after: &RGit) -> Result<(),
     }
 }
 
-/// Files whose name ends in ".big" carry a fixed 2.5 MiB prefix in front of the model's content, so
+/// Files whose name ends in ".big" carry a fixed prefix of 1.1 / 2.5 / 9 MiB in front of the model's content, so
 /// that every edit changes only bytes beyond the first couple of MiB of the file.
 pub fn write_managed(w: &World, rel: &str, content: &str) -> Result<(), String> {
     if rel.ends_with(".big") {
-        let mut v = Vec::with_capacity(2_700_000);
+        let size = if rel.ends_with(".s0.big") { 1_153_434 } else if rel.ends_with(".s2.big") { 9_437_184 } else { 2_621_440 };
+        let mut v = Vec::with_capacity(size + 100_000);
         let line = b"0123456789abcdef0123456789abcdef0123456789abcdef0123456789abcde\n";
-        while v.len() < 2_621_440 {
+        while v.len() < size {
             v.extend_from_slice(line);
         }
         v.extend_from_slice(content.as_bytes());
